@@ -330,8 +330,10 @@ print(json.dumps({"errs": errs, "results": results, "events": len(events), "crit
 '''
 
 
-def run_trial(n, seed, inject, p=0.5, watchdog=240):
-    code = TRIAL % {"verif": common.VERIF, "n": n, "seed": seed, "inject": inject, "p": p, "watchdog": watchdog, "shared": (seed % 3 == 0), "immediate": (seed % 2 == 1)}
+def run_trial(n, seed, inject, p=0.5, immediate=None, shared=None, watchdog=240):
+    immediate = (seed % 2 == 1) if immediate is None else immediate
+    shared = (seed % 3 == 0) if shared is None else shared
+    code = TRIAL % {"verif": common.VERIF, "n": n, "seed": seed, "inject": inject, "p": p, "watchdog": watchdog, "shared": shared, "immediate": immediate}
     env = dict(os.environ, PYTHONPATH=common.VERIF, PYTHONHASHSEED="0")
     try:
         pr = subprocess.run([common.PY, "-c", code], env=env, cwd=common.VERIF, capture_output=True, text=True, timeout=watchdog + 30)
@@ -392,7 +394,8 @@ def main(tier):
     for k in range(ntrials):
         n = [2, 4, 8, 16][k % 4]
         inject = (k % 6) != 5  # every sixth trial without injection (barrier + switch interval only)
-        plan.append((n, common.seed() * 100003 + k, inject, [0.5, 0.2, 0.8][k % 3]))
+        # every thread count gets trials with and without "immediate use", whatever the base seed
+        plan.append((n, common.seed() * 100003 + k, inject, [0.5, 0.2, 0.8][k % 3], (k // 4) % 2 == 1, k % 3 == 0))
     inter = set()
     ev_total = 0
     sw_total = 0
@@ -405,8 +408,8 @@ def main(tier):
 
     with ThreadPoolExecutor(max(2, common.NCPU // 2)) as ex:
         for pl, out in ex.map(go, plan):
-            n, sd, inject, p = pl
-            wit = {"threads": n, "seed": sd, "yield_injection": inject, "p": p}
+            n, sd, inject, p, imm, shr = pl
+            wit = {"threads": n, "seed": sd, "yield_injection": inject, "p": p, "immediate_use": imm, "shared_converter_phase": shr}
             if out.get("timeout"):
                 rep.inconc("trial timed out (possible deadlock) %s" % wit)
                 continue
